@@ -17,7 +17,7 @@ def gen_assign(rng):
     if side == "hot":                            # heating profile: Qh at the top, non-increasing to 0 at the pinch
         acc = 0.0
         for i in range(p - 1, -1, -1):
-            acc += float(rng.choice([0, 100, 250, 400, 1000]))
+            acc += float(rng.choice([0, 100, 250, 400, 1000, 3000]))
             H[i] = acc
     else:                                        # cooling profile (stored negative by the pipeline half of the time)
         acc = 0.0
@@ -27,11 +27,20 @@ def gen_assign(rng):
         if rng.random() < 0.5:
             H = [-h for h in H]
     k = rng.randint(1, 4)
+    if rng.random() < 0.35:
+        k = max(k, 2)            # a ladder: a low-grade isothermal level under a gliding one
     us = []
     for j in range(k):
         base = rng.choice(T) + rng.choice([0.0, 5.0, -5.0, 15.0, -15.0, 40.0, -40.0, 0.1])
-        glide = rng.choice([0.1, 0.1, 10.0, 30.0])
+        glide = rng.choice([0.1, 0.1, 10.0, 30.0, 60.0, 100.0])
         us.append((base + glide, base) if side == "hot" else (base, base + glide))
+    if k >= 2 and rng.random() < 0.5:
+        # lowest grade isothermal just beyond the pinch, the next one gliding across several rows
+        tp = T[p]
+        if side == "hot":
+            us[0] = (tp + 10.1, tp + 10.0); us[1] = (tp + 10.0 + rng.choice([30.0, 60.0, 120.0]), tp + 15.0)
+        else:
+            us[0] = (tp - 10.1, tp - 10.0); us[1] = (tp - 10.0 - rng.choice([30.0, 60.0, 120.0]), tp - 15.0)
     us.sort(key=lambda x: -x[0] if side == "hot" else x[0])
     hot_row, cold_row = (p, min(p + rng.choice([0, 0, 1]), n - 1)) if side == "hot" else (max(p - rng.choice([0, 0, 1]), 0), p)
     return {"kind": "assign", "side": side, "T": T, "H": H, "hot_row": hot_row, "cold_row": cold_row, "us": us}
